@@ -1,9 +1,9 @@
 import os
 ID = 'C10'
 LEVEL = 'other'
-CONTRACT_MODULES = ['contracts.stats']
-CONE = ['csep.utils.stats.get_quantiles', 'csep.utils.stats.greater_equal_ecdf', 'csep.utils.stats.less_equal_ecdf']
-ORACLE_MODULES = ['rt.oracles_catfc']
+CONTRACT_MODULES = ['contracts.stats', 'contracts.calc']
+CONE = ['csep.utils.calc._compute_likelihood', 'csep.utils.stats.get_quantiles', 'csep.utils.stats.greater_equal_ecdf', 'csep.utils.stats.less_equal_ecdf']
+ORACLE_MODULES = ['rt.oracles_catfc', 'rt.oracles_contracts']
 BOUNDED = os.path.exists(os.path.join(os.path.dirname(__file__), '..', 'rt', 'bounded_C10.py'))
 FLOAT_MODEL = 'E for the time conversions (see C15); concrete executions otherwise'
 TRUSTED = ['the oracles in rt/ compute the expected outcome from the property statement, independently of the code under test', 'pyvc engine, z3 5.1']
